@@ -112,6 +112,8 @@ impl<Error: Send + 'static> DecodeScheduler<Error> {
 					self.shared.encountered_error.store(true, Ordering::SeqCst);
 					// the sound stops itself when it sees the error; retrying the
 					// decoder in a loop would only burn CPU until it does
+					#[cfg(feature = "verif-hooks")]
+					crate::verif::emit(crate::verif::Event::ThreadExit);
 					break;
 				}
 			}
